@@ -134,7 +134,7 @@ Qed.
 
 (* loads() below the root: get_tree + construct on a state, the protocol being given *)
 Definition load_state (C : cenv) (files : list (hkey * json)) (proto : json) (j : json) : res pval :=
-  do (t, _) <- get_tree default_fuel (c_env C) proto [] (SOne (s "root")) [] j;
+  do (t, _) <- get_tree default_fuel (c_env C) proto [] (SOne (GetTree.K "root")) [] j;
   construct_val C files t construct_fuel t.
 
 Definition c05_guard (F : cfacts) (D : denv) (base : Z) (v : pval) : bool :=
@@ -152,7 +152,7 @@ Proof.
   pose proof (fragb_vok D F (objs D v) v Hf (fun y Hy => Hy)) as Hv.
   destruct (vok_Q D F (c_env C) C files base (fun w => In w (objs D v)) Oid Hr HC Hs v Hv _ _ _ Hst ltac:(cbn; lia)) as [Hl [_ HQ]].
   split; [exact Hl|].
-  destruct (HQ default_fuel [] (SOne (s "root")) Hn) as [R [m' [Ht _]]]; [intros h Hh; discriminate Hh|].
+  destruct (HQ default_fuel [] (SOne (GetTree.K "root")) Hn) as [R [m' [Ht _]]]; [intros h Hh; discriminate Hh|].
   unfold load_state. rewrite Ht. cbn [bind].
   apply (root_construct D F (c_env C) C files base (fun w => In w (objs D v)) Ofun Oid Hr HC Hs v _ _ _ default_fuel R m' Hv Hst ltac:(cbn; lia) Hn Ht).
   unfold construct_fuel, default_fuel in *. lia.
